@@ -118,10 +118,14 @@ class RecursiveSeqletCsum(_KernelInputs, FragmentContract):
         w = getattr(self, '_world', None)
         if w is not None:
             fd = w.bind.function_ast(w.bind.resolve(self.qualname))
+            from vf.contract import fragment_statements
+            _, stmts = fragment_statements(w, self)
+            lo_, hi_ = min(st.lineno for st in stmts), max(getattr(st, 'end_lineno', st.lineno) for st in stmts)
             stores = [n for n in _ast.walk(fd) if isinstance(n, _ast.Subscript) and isinstance(n.ctx, _ast.Store) and isinstance(n.value, _ast.Name) and n.value.id == 'X_csum']
             rebinds = [n for n in _ast.walk(fd) if isinstance(n, _ast.Name) and isinstance(n.ctx, _ast.Store) and n.id == 'X_csum']
-            if len(stores) != 2 or len(rebinds) != 1:
-                raise Unsupported("X_csum is written outside its prefix-sum loops (%d stores, %d bindings)" % (len(stores), len(rebinds)))
+            outside = [n for n in stores + rebinds if not (lo_ <= n.lineno <= hi_)]
+            if outside or len(rebinds) != 1:
+                raise Unsupported("X_csum is written outside its prefix-sum statements (%d stores / bindings outside, %d bindings)" % (len(outside), len(rebinds)))
         n, l = A.dim('n', 0), A.dim('l', 1)
         X = A.tensor('X', 2, 'real', lib='np', shape=[n, l])
         fx = z3.Function('X', z3.IntSort(), z3.IntSort(), z3.RealSort())
